@@ -24,7 +24,7 @@ from .. import ent_check as EF
 
 PID = "C03"
 SK = [("table", 1), ("table", 2), ("table", 3), ("seq", 1), ("seq", 2), ("alter", 1), ("alter", 2), ("view", 1), ("view", 2), ("ext", 1), ("unsup", 1), ("unsup", 2),
-      ("unsup", 3), ("insert", 1), ("insert", 2), ("upsert", 2), ("grant", 1), ("go", 1), ("set", 1), ("drop", 1)]
+      ("unsup", 3), ("insert", 1), ("insert", 2), ("upsert", 2), ("grant", 1), ("go", 1), ("set", 1), ("drop", 1), ("serde", 1), ("alter_rn", 1)]
 
 
 def judge(V, behs, res, what, nl):
@@ -53,7 +53,7 @@ def judge(V, behs, res, what, nl):
             for i, s in enumerate(b["stmts"], 1):
                 if s["k"] == "set":
                     want_order.append(f"opt{i}")
-                elif s["k"] == "table":
+                elif s["k"] in ("table", "serde"):
                     want_order.append(f"t{i}")
                 elif s["k"] == "seq":
                     want_order.append(f"sq{i}")
